@@ -137,14 +137,17 @@ Example relabel_perm_on :
   match prepare_lattice true false ex_calls, prepare_lattice true true ex_calls2 with
   | Done t1, Done t2 =>
     IndexSize t1 = 11 /\ perm_on (IndexSize t1) (index_perm t1 t2 ex_f) /\
-    adj_decomp 11 (index_perm t1 t2 ex_f) = [1; 2; 3; 4; 5; 6; 7; 8; 9; 0; 1; 2; 3; 4; 5; 6; 7; 8; 8; 4; 5; 6; 7; 7; 3; 4; 5; 6; 2; 3; 4; 5; 2; 3; 4]
+    adj_decomp 11 (index_perm t1 t2 ex_f) =
+      [1; 2; 3; 4; 5; 6; 7; 8; 9; 0; 1; 2; 3; 4; 5; 6; 7; 8; 6; 7; 2; 3; 4; 5; 6; 4; 5; 1; 2; 3; 4; 2; 3; 0; 1; 2] /\
+    map (perm_of (adj_decomp 11 (index_perm t1 t2 ex_f))) (seq 0 11) = [5; 9; 10; 2; 6; 3; 7; 4; 8; 0; 1]
   | _, _ => False
   end.
 Proof.
   destruct ex_rename_hyps as [H1 [H2 [H3 [H4 [H5 [[t1 E1'] [t2 E2']]]]]]].
   rewrite E1', E2'.
-  split; [|split].
-  - revert E1'. vm_compute. intros E. injection E as <-. reflexivity.
+  split; [|split; [|split]].
+  - vm_compute in E1'. injection E1' as <-. reflexivity.
   - exact (proj1 (index_perm_perm_on true false true true ex_calls ex_calls2 ex_f ex_g t1 t2 H1 H2 H3 H4 H5 E1' E2')).
-  - revert E1' E2'. vm_compute. intros E1' E2'. injection E1' as <-. injection E2' as <-. vm_compute. reflexivity.
+  - vm_compute in E1', E2'. injection E1' as <-. injection E2' as <-. vm_compute. reflexivity.
+  - vm_compute in E1', E2'. injection E1' as <-. injection E2' as <-. vm_compute. reflexivity.
 Qed.
